@@ -163,16 +163,25 @@ def backend_part(check):
     g = Gen(check.rng)
     for rule in RULES:
         ra = [m_list("serde", [m_nv("rename_all", lit_s(rule))])]
-        fs = lambda: ("named", [field([], w, t_path("u8")) for w in ("first_name", "created_by_user", "x2_value", "age")])
+        # the languages with a date type bind the key of a date field a second time (TypeScript's reviver; Python's translation
+        # functions): those fields come last but one
+        fs = lambda dates=False: ("named", [field([], w, t_path("u8")) for w in ("first_name", "created_by_user", "x2_value")]
+                                  + ([field([], w, t_path("OffsetDateTime")) for w in ("last_seen_at", "deleted_at")] if dates else [])
+                                  + [field([], "age", t_path("u8"))])
+        mk = lambda dates: {"attrs": [], "items": [
+            {"kind": "struct", "attrs": ts + ra, "ident": "Person", "generics": [], "fields": fs(dates)},
+            {"kind": "enum", "attrs": ts + [m_list("serde", [m_nv("tag", lit_s("t")), m_nv("content", lit_s("c"))])], "ident": "Ev", "generics": [],
+             "variants": [{"attrs": list(ra), "ident": "Made", "fields": fs(dates)}, {"attrs": [], "ident": "Gone", "fields": ("unit",)}]}]}
         f = {"attrs": [], "items": [
             {"kind": "struct", "attrs": ts + ra, "ident": "Person", "generics": [], "fields": fs()},
             {"kind": "enum", "attrs": ts + [m_list("serde", [m_nv("tag", lit_s("t")), m_nv("content", lit_s("c"))])], "ident": "Ev", "generics": [],
              "variants": [{"attrs": list(ra), "ident": "Made", "fields": fs()}, {"attrs": [], "ident": "Gone", "fields": ("unit",)}]}]}
         for lang in LANGS:
             cfg = {"package": "proto" if lang == "go" else "com.example", "type_mappings": {}, "version_header": False, "prefix": "", "module_name": ""}
-            m, r, texts = l2.requests(lang, cfg, [{"crate": "", "file_name": "out", "path": "src/lib.rs", "file": f}], g)
-            reqs.append(r)
-            meta.append((rule, lang, cfg, f, texts[0]))
+            for ff in [f] + ([mk(True)] if lang in ("typescript", "go", "python") else []):
+                m, r, texts = l2.requests(lang, cfg, [{"crate": "", "file_name": "out", "path": "src/lib.rs", "file": ff}], g)
+                reqs.append(r)
+                meta.append((rule, lang, cfg, ff, texts[0]))
     for (rule, lang, cfg, f, src), a in zip(meta, runner(reqs)):
         check.saw(("backend", rule, lang), nontrivial=True)
         check.count("backend-level")
